@@ -20,11 +20,13 @@
 
 from __future__ import annotations
 
+from numbers import Number
 from typing import TYPE_CHECKING
 from typing import Any
 from typing import ClassVar
 
 from numpy import argmax
+from numpy import asarray
 from numpy import concatenate
 from numpy import full
 from numpy import tile
@@ -219,6 +221,10 @@ class CenteredDifferences(BaseGradientApproximator):
     ) -> tuple[RealArray, RealArray | float]:
         input_dimension = len(input_values)
         n_indices = len(input_indices)
+        if not isinstance(step, Number) and len(step) == input_dimension:
+            # One step per input component: keep the steps of the differentiated ones.
+            step = asarray(step)[input_indices]
+
         input_perturbations = (
             tile(input_values, 2 * n_indices)
             .reshape((2 * n_indices, input_dimension))
